@@ -102,6 +102,7 @@ def main():
     if a.replay:
         rp, o = native(json.load(open(a.replay))['case']); print(o); sys.exit(1 if rp else 0)
     rep = R.Report('C04', a.tier, seed); timeout = solve.TIMEOUT_MS[a.tier]
+    R.prefetch_native('props.c04_native', ['bounded', str(seed), a.tier])      # the stand-in runs while the obligations are discharged
     u = DCm.Dist()
     for k in ('PartitionedDistinguisherMixin._compute', 'ANOVADistinguisherMixin._compute_metric', 'NICVDistinguisherMixin._compute_metric', 'SNRDistinguisherMixin._compute_metric'): rep.function(PM + '::' + k, u.sha(PM + '::' + k))
     units = []
